@@ -144,6 +144,20 @@ pub fn nest_source(kind: usize, depth: usize, rng: &Rng, d: &Delims) -> String {
                 "a1.b2", "a.1", "a.1.2", "a1b2c3", "1a", "\"it's `x`\"", "'say \"hi\" `x`'", "`both ' and \"`", "\"ends with backslash\\\"", "\"\\",
                 "\"unterminated", "'\u{e9}\\'", "-", "--1", "- -1", "not not true", "1 -", "1 +", "(", ")", "1 2", "a b", "a..b", "a.", ".a", "a[", "a[]", "a[:]", "a[::]", "a?.", "a?[",
             ];
+            if rng.chance(1, 3) {
+                // a string literal assembled from escape pieces: valid and invalid escapes, a
+                // backslash before a multi-byte character, before the closing quote, last
+                const PIECES: &[&str] = &["a", " ", "\\\\", "\\n", "\\t", "\\\"", "\\'", "\\/", "\\x", "\\\u{e9}", "\u{e9}", "\\\u{1F389}", "\u{1F389}", "\\", "\\\u{2028}", "\\0", "\\u00e9", "\n"];
+                let q = rng.pick(&["\"", "'", "`"]);
+                let mut lit = String::from(q);
+                for _ in 0..rng.range(1, 6) {
+                    lit.push_str(rng.pick(PIECES));
+                }
+                if !rng.chance(1, 8) {
+                    lit.push_str(q);
+                }
+                return format!("{} {}{} {}", d.vs, lit, rng.pick(&["", " | upper", " ~ 'x'", "[0]"]), d.ve);
+            }
             let t = rng.pick(TOKENS);
             // (not through sanitize_inner: these are meant to be what they are)
             format!("{} {} {}", d.vs, t, d.ve)
